@@ -26,6 +26,7 @@ RULE = (
     "symbolic links into separate directories, and with the full name spelled in \"name\" instead of a namespace attribute; a reference "
     "to a type whose name is too long to be a file name must be reported like any other missing type. "
     "distinct_nontrivial = distinct (graph, namespaces, realisation) repositories."
+    ' Reference kinds include unions with the named type first and in the middle; straight chains of 2..33 (thorough ..100) per-file types.'
 )
 ASSUMPTIONS = [
     "first use = first reference in document order of the root, descending into a type where it is first used",
